@@ -27,6 +27,7 @@ RULE = (
     "percentage = floor(100*step/max), throttle (advance-caused frames not reaching the maximum are >= min-interval after "
     "the previous write), a frame whenever the maximum is reached, last frame after finish shows the maximum; ANSI: the "
     "emulator's bar lines equal the latest frame (no residue); plain: no control codes and one frame per line; quiet: no "
+    "Also: full bar segment after finish; formats given by name and with remaining / estimated fields; section bars on a terminal exactly as wide as the frame with a title section above; one frame write failing (OSError / KeyboardInterrupt) at every position. "
     "write at all. non-trivial = sequence with >= 2 frames and >= 1 throttled advance; distinct by (ops, clock steps, config)."
 )
 BOUND = {
